@@ -151,12 +151,16 @@ MergeSeq(B, s, v, idx, m, n, t) ==     \* returns <<st, version, vi, mi, broadca
                         Put(m, e.id, e.ms), n + 1, t)
           ELSE MergeSeq(B \ {e}, r[1], v, idx, m, n, t)
 
-Merge(B) ==
+\* big: the message exceeds half a gossip packet (cluster.OversizedMessage: it came over the
+\* reliable channel, e.g. a full-state exchange); it is merged and indexed like any other but
+\* not gossiped on
+Merge(B, big) ==
   /\ DistinctIds(B)
   /\ LET r == MergeSeq(B, st, version, vi, mi, 0, now)
+         sent == IF big THEN 0 ELSE r[5]
      IN /\ st' = r[1] /\ version' = r[2] /\ vi' = r[3] /\ mi' = r[4]
-        /\ bcast' = bcast + r[5]
-        /\ last' = [op |-> "merge", b |-> B, sent |-> r[5]]
+        /\ bcast' = bcast + sent
+        /\ last' = [op |-> "merge", b |-> B, big |-> big, sent |-> sent]
   /\ UNCHANGED <<now, cache, nid>>
 
 (* GC: walks the version index *)
